@@ -44,7 +44,8 @@ EXPLANATION = (
 )
 # obligations added during the build phase (seeding rounds, twins, mutation analysis)
 ADDED_IN_BUILD = ' Also: (b) the minimum size of a scorer is never read before the scorer was fitted on the current data; the cost adapters are run with a history (fit on other data, evaluate, fit on X) and their value must be the defining cost differences on the CURRENT data (C06.a re-run); (a) no set_params / reset / attribute store on an object the user handed in as a hyper-parameter (adapters with and without a fixed parameter, all detectors; arbitrary user objects); (e) fit_predict / fit_transform are fit(X, y) followed by predict / transform of the same X; (g) FIT-ALWAYS-FITS - in both base-class fit wrappers every returning path stores the data, runs _fit on the (normalised) argument and sets _is_fitted (must-pass-through over the statement tree: no shortcut on object identity). (h) NO-PROCESS-STATE over every function of the package: no mutable default changed in place, no module-level object changed from a function, no memoising decorator. FIT-ALWAYS-FITS unfitted-first (F-27): the scorers\' fit marks the object unfitted before it stores the data and runs _fit; fit_predict / fit_transform that run _fit themselves must store the data. (h) also covers mutable objects created in a class body and changed in place through self / cls. (g) _X-container: BaseDetector.fit stores the validated argument itself.'
-EXPLANATION = EXPLANATION + ADDED_IN_BUILD
+ADDED_IN_ROUND_9 = ' Round 9 (F-31): HP-FROZEN ctor-snapshot - __init__ takes no copy (clone / copy / deepcopy) of a component hyper-parameter: sktime applies nested parameters (set_params(cost__param=...)) after reset() has re-run __init__, so such a copy keeps the old nested parameters. Accepted: a copy whose every constructor parameter - of every class the component may have, read from the annotation and the class hierarchy - is overridden on the spot or through the name it is bound to (Saving: clone().set_params(param=None)).'
+EXPLANATION = EXPLANATION + ADDED_IN_BUILD + ADDED_IN_ROUND_9
 
 ASSUMPTIONS = [
     "Python's ast module; attribute effects are collected syntactically on `self` (no setattr/__dict__ tricks - their presence is reported)",
